@@ -23,10 +23,12 @@ func init() {
 				for i := uint64(0); i < n; i++ {
 					d.FieldStruct("item", func(d *decode.D) {
 						w := d.FieldU("w", 5)
-						d.FieldU("v", int(w)+1)
+						v := d.FieldU("v", int(w)+1)
+						d.FieldValueUint("v_plus_w", v+w) // synthetic: calculated, no input bits
 					})
 				}
 			})
+			d.FieldValueUint("count", n) // synthetic
 			d.FieldRawLen("rest", d.BitsLeft())
 			return nil
 		},
